@@ -316,7 +316,9 @@ def profile_for(pid, tier):
         G["scan_editable"] = 0.6
         G["kinds"].update({"scan": 5, "vmap": 4, "mask": 3, "switch": 5, "or_else": 2, "mix": 2})
         P["argchange"] = 0.55
-        P["undo_after"] = {"static_edit": 0.6, "index_edit": 0.5, "update": 0.3, "regenerate": 0.3}
+        P["undo_after"] = {"static_edit": 0.6, "index_edit": 0.5, "update": 0.5, "regenerate": 0.3}
+        G["root_kinds"] = dict(G["kinds"], switch=9, or_else=4, mix=4)
+        P["keep_index"] = 0.3
         G["choice_switch"] = 0.2
         P["dep_switch_bias"] = 0.6
     elif pid == "C07":
